@@ -1147,7 +1147,12 @@ int Interpret::interpFile(char *content){
 // For reading from pipe
 int Interpret::interpPipe() {
 
+#if defined(OPENSMT_VERIF_HOOKS) && defined(OPENSMT_VERIF_PIPE_BUFFER_SIZE)
+    // verification hook: start with a smaller buffer so that short inputs reach the buffer-growth path
+    int buf_sz  = OPENSMT_VERIF_PIPE_BUFFER_SIZE;
+#else
     int buf_sz  = 16;
+#endif
     char* buf   = (char*) malloc(sizeof(char)*buf_sz);
     int rd_head = 0;
     int par     = 0;
